@@ -615,28 +615,60 @@ func runC07(c *core.Ctx) {
 
 	// ---- inventory
 	nSites, nIO := 0, 0
+	// exemption of a function: listed in the table, a storage loader/committer, or — so that
+	// extracting a block of an exempted function into a helper changes nothing — a function all
+	// of whose callers are exempt under one and the same root
+	type exempt struct {
+		root   *ssa.Function
+		reason string
+	}
+	exMemo := map[*ssa.Function]*exempt{}
+	var exemptionOf func(fn *ssa.Function, depth int) *exempt
+	exemptionOf = func(fn *ssa.Function, depth int) *exempt {
+		if e, ok := exMemo[fn]; ok {
+			return e
+		}
+		exMemo[fn] = nil
+		name := core.ShortFn(fn)
+		var e *exempt
+		switch {
+		case legacyV1(fn):
+			e = &exempt{fn, inventoryTable["legacy:coreV2/state/swap.Swap"]}
+		case inventoryTable[name] != "":
+			e = &exempt{fn, "confirmed: " + inventoryTable[name]}
+		case inStoragePkg(fn) && isStorageLoader(fn):
+			e = &exempt{fn, "storage loader/committer of a state module: decode or write failure of this node's own database"}
+		case depth < 3 && fn.Object() != nil && !fn.Object().Exported():
+			callers := c.CG().Callers(fn)
+			var root *exempt
+			for _, cl := range callers {
+				ce := exemptionOf(cl, depth+1)
+				if ce == nil {
+					root = nil
+					break
+				}
+				if root == nil {
+					root = ce
+				} else if root.reason != ce.reason {
+					root = nil
+					break
+				}
+			}
+			if root != nil && len(callers) > 0 {
+				e = &exempt{root.root, root.reason + " (helper of " + core.ShortFn(root.root) + ")"}
+			}
+		}
+		exMemo[fn] = e
+		return e
+	}
+	groupCount := map[*ssa.Function]int{}
 	for _, fn := range fns {
 		sites := panicSitesOf(c, fn)
 		if len(sites) == 0 {
 			continue
 		}
 		name := core.ShortFn(fn)
-		nonIO := 0
-		for _, ps := range sites {
-			if ps.io == "" {
-				nonIO++
-			}
-		}
-		// a function exempted by the table (or as a storage loader) was confirmed with a certain
-		// number of fail-stop sites; one more is a new way to stop the node and has to be read
-		if nonIO > 0 && !legacyV1(fn) && (inventoryTable[name] != "" || (inStoragePkg(fn) && isStorageLoader(fn))) {
-			ceil := 1
-			if k, ok := inventoryCeil[name]; ok {
-				ceil = k
-			}
-			c.Check(nonIO <= ceil, "C07.inventory", name+"/site-count", fn.Pos(), fmt.Sprintf("%d fail-stop site(s), as confirmed", nonIO),
-				fmt.Sprintf("%s has %d explicit panic/exit sites that are not governed by a storage or encoder error; %d were there when the function was confirmed as a deliberate fail-stop — the new one is a new way to stop the node (on restart paths: a node that cannot come back) and is not covered by that confirmation", name, nonIO, ceil))
-		}
+		ex := exemptionOf(fn, 0)
 		for _, ps := range sites {
 			nSites++
 			key := name + "/" + ps.what
@@ -644,16 +676,32 @@ func runC07(c *core.Ctx) {
 			case ps.io != "":
 				nIO++
 				c.OK("C07.inventory", key, ps.instr.Pos(), "io: governed by the error of "+ps.io+" on this node's own storage / an encoder")
-			case legacyV1(fn):
-				c.OK("C07.inventory", key, ps.instr.Pos(), inventoryTable["legacy:coreV2/state/swap.Swap"])
-			case inventoryTable[name] != "":
-				c.OK("C07.inventory", key, ps.instr.Pos(), "confirmed: "+inventoryTable[name])
-			case inStoragePkg(fn) && isStorageLoader(fn):
-				c.OK("C07.inventory", key, ps.instr.Pos(), "storage loader/committer of a state module: decode or write failure of this node's own database")
+			case ex != nil:
+				if !legacyV1(fn) {
+					groupCount[ex.root]++
+				}
+				c.OK("C07.inventory", key, ps.instr.Pos(), ex.reason)
 			default:
 				c.Bad("C07.inventory", key, ps.instr.Pos(), fmt.Sprintf("an explicit %s reachable from %s is not classified: not governed by a storage/encoder error and not in the confirmed table — a request that reaches it crashes the node", ps.what, core.PathTo(reach, fn)))
 			}
 		}
+	}
+	// an exempted function (with the helpers only it calls) was confirmed with a certain number of
+	// fail-stop sites; one more is a new way to stop the node and has to be read
+	var roots []*ssa.Function
+	for r := range groupCount {
+		roots = append(roots, r)
+	}
+	sort.Slice(roots, func(i, j int) bool { return roots[i].String() < roots[j].String() })
+	for _, r := range roots {
+		name := core.ShortFn(r)
+		ceil := 1
+		if k, ok := inventoryCeil[name]; ok {
+			ceil = k
+		}
+		n := groupCount[r]
+		c.Check(n <= ceil, "C07.inventory", name+"/site-count", r.Pos(), fmt.Sprintf("%d fail-stop site(s), as confirmed", n),
+			fmt.Sprintf("%s (with the helpers only it calls) has %d explicit panic/exit sites that are not governed by a storage or encoder error; %d were there when the function was confirmed as a deliberate fail-stop — the new one is a new way to stop the node (on restart paths: a node that cannot come back) and is not covered by that confirmation", name, n, ceil))
 	}
 	for callee, allowed := range inventoryCallers {
 		target := c.Fn(callee)
@@ -1177,7 +1225,8 @@ func checkBlockLevelNil(c *core.Ctx, rule string) {
 				continue
 			}
 			n++
-			key := core.ShortFn(fn) + "|" + target.Name()
+			// keyed by the function the code belongs to: a helper only that function calls is part of it
+			key := core.ShortFn(c.GroupRoot(fn)) + "|" + target.Name()
 			unguarded := 0
 			var first ssa.Instruction
 			for _, d := range derefs {
@@ -1216,7 +1265,7 @@ func callerGated(c *core.Ctx, reach map[*ssa.Function]*ssa.Function, fn *ssa.Fun
 		}
 		idx := -1
 		for j, p := range fn.Params {
-			if core.Unwrap(a) == p || core.Path(a) == p.Name() {
+			if core.Unwrap(a) == p || core.Path(a) == core.ParamName(p) {
 				idx = j
 			}
 		}
